@@ -224,20 +224,63 @@ IsRaw(c) == "raw" \in DOMAIN Cases[c]
 CaseEnv(c) == Cases[c].env
 CaseType(c) == Cases[c].env.types[Cases[c].top]
 
+\* The value a sender of the extension root alone would send: every extension
+\* addition of every SEQUENCE / SET inside v absent.  (TypeGen's one-hot
+\* values never make all additions absent at once.)
+RECURSIVE StripAdds(_, _, _)
+StripAdds(env, T, v) ==
+  CASE T.k = "REF" -> StripAdds(env, env.types[T.name], v)
+    [] T.k \in {"SEQ", "SET"} ->
+         LET ms == AllMembers(T)
+         IN [nm \in DOMAIN v |->
+               LET j == MemberIndex(ms, nm)
+               IN IF j > Len(T.root) THEN Absent
+                  ELSE IF v[nm].p THEN Present(StripAdds(env, ms[j].t, v[nm].v))
+                  ELSE v[nm]]
+    [] T.k = "CHOICE" ->
+         LET alts == AllAlts(T) IN [a |-> v.a, v |-> StripAdds(env, alts[MemberIndex(alts, v.a)].t, v.v)]
+    [] T.k \in {"SEQOF", "SETOF"} -> Force([j \in 1..Len(v) |-> StripAdds(env, T.e, v[j])])
+    [] OTHER -> v
+
+\* is some extension addition of a SEQUENCE / SET present inside v ?
+RECURSIVE HasAdds(_, _, _)
+HasAdds(env, T, v) ==
+  CASE T.k = "REF" -> HasAdds(env, env.types[T.name], v)
+    [] T.k \in {"SEQ", "SET"} ->
+         LET ms == AllMembers(T)
+         IN \E j \in 1..Len(ms) : v[ms[j].n].p /\ (j > Len(T.root) \/ HasAdds(env, ms[j].t, v[ms[j].n].v))
+    [] T.k = "CHOICE" ->
+         LET alts == AllAlts(T) IN HasAdds(env, alts[MemberIndex(alts, v.a)].t, v.v)
+    [] T.k \in {"SEQOF", "SETOF"} -> \E j \in 1..Len(v) : HasAdds(env, T.e, v[j])
+    [] OTHER -> FALSE
+
+\* derived start values of a typed case (numbered after the case's own values)
+ExtraVals(c) ==
+  LET v1 == Cases[c].vals[1]
+  IN IF HasAdds(CaseEnv(c), CaseType(c), v1) THEN <<StripAdds(CaseEnv(c), CaseType(c), v1)>> ELSE <<>>
+
+ValueOf(c, vi) ==
+  IF vi <= Len(Cases[c].vals) THEN Cases[c].vals[vi] ELSE ExtraVals(c)[vi - Len(Cases[c].vals)]
+
+ValueIndices(c) ==
+  IF IsRaw(c) THEN {1}
+  ELSE LET n == Len(Cases[c].vals)
+       IN (1..Min2(MaxVals, n)) \cup ((n + 1)..(n + Len(ExtraVals(c))))
+
 StartTree(c, vi) ==
   IF IsRaw(c) THEN FromParsed(ParseTlv(Cases[c].raw).t, 0)
-  ELSE BerTree(CaseEnv(c), CaseType(c), Cases[c].vals[vi])
+  ELSE BerTree(CaseEnv(c), CaseType(c), ValueOf(c, vi))
 
 \* what every variant must normalise to: the X.690 distinguished tree
 \* (computed by X690!DerTree, not by BerTree), or for raw cases the
 \* normal form of the recorded encoding itself
 Reference(c, vi) ==
   IF IsRaw(c) THEN ReadBack(Cases[c].raw, StartTree(c, vi)).t
-  ELSE DerTree(CaseEnv(c), CaseType(c), Cases[c].vals[vi], {})
+  ELSE DerTree(CaseEnv(c), CaseType(c), ValueOf(c, vi), {})
 
 Init ==
   /\ gCase \in 1..Len(Cases)
-  /\ gVi \in 1..(IF IsRaw(gCase) THEN 1 ELSE Min2(MaxVals, Len(Cases[gCase].vals)))
+  /\ gVi \in ValueIndices(gCase)
   /\ gTree = StartTree(gCase, gVi)
   /\ gSteps = 0
   /\ gRef = Reference(gCase, gVi)
@@ -360,7 +403,12 @@ DescOf(t, p) ==
               ELSE <<>>
   IN here \o Concat([i \in 1..Len(t.kids) |-> DescOf(t.kids[i], Append(p, i))])
 
-Variant(bytes) == [cid |-> Cases[gCase].cid, vi |-> gVi, b |-> bytes, d |-> DescOf(gTree, <<>>)]
+\* (a derived start value is emitted with the unrewritten variant: xv)
+Variant(bytes) ==
+  LET base == [cid |-> Cases[gCase].cid, vi |-> gVi, b |-> bytes, d |-> DescOf(gTree, <<>>)]
+  IN IF ~IsRaw(gCase) /\ gVi > Len(Cases[gCase].vals) /\ gSteps = 0
+     THEN [cid |-> base.cid, vi |-> base.vi, b |-> base.b, d |-> base.d, xv |-> ValueOf(gCase, gVi)]
+     ELSE base
 
 EmitFor(bytes) ==
   Serialize(ToJson(Variant(bytes)) \o "\n", IOEnv.OUT_FILE,
